@@ -2,6 +2,7 @@ import TeaTasting.Driver.Proto
 import TeaTasting.Driver.Stubs
 import TeaTasting.Spec.Sample
 import TeaTasting.Spec.Fast
+import TeaTasting.Spec.Multiplicity
 
 /-! Driver for the SPECIFICATION side (`Spec/*.lean`) at `ℚ`; imports nothing generated, so it
 keeps working when the regenerated model does not compile.  It evaluates the `…Exec` forms of
@@ -54,6 +55,16 @@ def handler (cmd : String) : P String := do
     match xs with
     | [m1, v1, n1, m2, v2, n2] => pure (showResult (testFromStats (Stubs.family fam) o m1 v1 n1 m2 v2 n2))
     | _ => throw "from_stats args"
+  | "mult" =>
+    let procName ← str
+    let a ← rat
+    let ps ← list rat
+    let proc : Mult.Proc := match procName with
+      | "bh" => .bh | "by" => .by_ | "hochberg-bonferroni" => .hochbergBonferroni
+      | "hochberg-sidak" => .hochbergSidak | "holm-bonferroni" => .holmBonferroni | _ => .holmSidak
+    let rpowQ : ℚ → ℚ → ℚ := fun x y => if y.den = 1 ∧ 0 ≤ y.num then x ^ y.num.toNat else poison
+    pure (" ".intercalate ((Mult.textbook rpowQ proc a ps).map (fun o =>
+      s!"{showRat o.pvalue_adj} {showRat o.alpha_adj} {if o.null_rejected then 1 else 0}")))
   | _ => throw s!"unknown command {cmd}"
 
 def main : IO Unit := do loop handler (← IO.getStdin)
